@@ -45,7 +45,9 @@ def script_cases(options, sanitize, min_statements=1, max_statements=3, comments
     # a quarter of the scripts are CASE-heavy (CASE with AND/OR conditions in select list, WHERE and ORDER BY)
     heavy = G.script(1, 2, comments=comments, stmt=G.case_heavy_select(), **lay)
     # options first: values drawn after a large structure are biased towards their simplest form
-    alts = [plain, plain, plain, heavy]
+    # T-SQL batches: statements ended by ';' + GO or by GO alone
+    batches = G.script(2, 3, comments=comments, go=True, **lay)
+    alts = [plain, heavy, batches]
     if procedural:
         from gen import proc
         alts.append(proc.script(depth=2, max_pre=1, max_post=1, comments=comments, **lay))
